@@ -4,6 +4,7 @@ CONSTANTS
   Tier = "tiny"
   MathNames <- MC_MathNames
   ResidChoices = {TRUE}
+  MaxGenerations = 2
   AsFound_KUndefined = TRUE
 INVARIANT TypeOK
 INVARIANT C20_Closed
